@@ -5,18 +5,20 @@
 From Coq Require Import NArith ZArith List Uint63 Bool.
 From Coq.Strings Require Import Byte.
 From LOF Require Export Corr.Common Model.Build.
-From LOF Require Import Base.Bytes Model.Wire.
+From LOF Require Import Base.Bytes Base.Res Model.Wire Model.Proto.
 Import ListNotations.
 Open Scope N_scope.
 
 Inductive erec :=
 | EMsg (xid : N) (m : mrec) | EAct (a : arec) | EMf (f : mfrec) | EInstr (i : irec)
-| EBucket (b : brec) | EMatch (fs : list mfrec).
+| EBucket (b : brec) | EMatch (fs : list mfrec)
+| EPkt (first : list byte).   (* an Ethernet frame, given by its first encoding (package protocol has no recipe model) *)
 
 Definition model_of (e : erec) : tree :=
   match e with
   | EMsg x m => build_m x m | EAct a => build_a a | EMf f => build_mf f | EInstr i => build_i i
   | EBucket b => build_b b | EMatch fs => build_match fs
+  | EPkt b => match dec_eth b with Ok t => t | _ => T KRaw [VB b] [] end
   end.
 
 Fixpoint bytes_eqb (a b : list byte) : bool :=
@@ -145,6 +147,10 @@ Definition kind_code (k : kind) : N :=
   | KGroupMod => 36 | KPacketOut => 37 | KPortMod => 38 | KMultipartReq => 39 | KFlowStatsReq => 40
   | KAggStatsReq => 41 | KPortStatsReq => 42 | KQueueStatsReq => 43 | KVendor => 44 | KControllerID => 45
   | KTlvTableMod => 46 | KTlvMap => 47 | KBundleCtrl => 48 | KBundleAdd => 49 | KBundleProp => 50 | KRaw => 51
+  | KError => 52 | KVendorError => 53 | KFeatures => 54 | KPhyPort => 55 | KPacketIn => 56 | KPad2 => 57 | KFlowRemoved => 58
+  | KPortStatus => 59 | KMultipartReply => 60 | KDescStats => 61 | KFlowStats => 62 | KAggStats => 63 | KTableStats => 64
+  | KPortStats => 65 | KQueueStats => 66 | KTlvTableReply => 67 | KEth => 68 | KVlan => 69 | KU16 => 70 | KArp => 71 | KIp4 => 72
+  | KIp6 => 73 | KHbh => 74 | KRouting => 75 | KFragment => 76 | KIcmp => 77 | KUdp => 78 | KTcp => 79
   end.
 Fixpoint tree_eqb (a b : tree) : bool :=
   match a, b with
@@ -187,6 +193,7 @@ Definition spec_of (e : erec) (b : list byte) : option tree :=
   | EInstr _ => whole (sdec_instr b)
   | EBucket _ => whole (sdec_bucket b)
   | EMatch _ => whole (sdec_match b)
+  | EPkt _ => None
   end.
 
 Definition oracle02 (c : caseE) : bool :=
